@@ -24,9 +24,9 @@ BOUNDS = ["round trip, parts, weekday, serial range: every serial day 0..2958465
           "civil date against an independent Gregorian oracle: days 0..61 (quick: anchor) and 1900-1931 (thorough); exact month lengths and "
           "day succession in windows of ~1000 days around 1900, 2000, 2100, 2400 and the end of 9999 (thorough) - beyond day 60 "
           "date_from_int is DATE_ZERO + timedelta(days=n), so these pin the offset; the calendar in between is CPython's",
-          "EDATE/EOMONTH: around the fictitious 1900-02-29 and the calendar start (quick); thorough: EDATE(n,k) = DATE(y,m+k,d) and "
-          "EOMONTH(n,k) = DATE(y,m+k+1,1)-1 for |k| <= 1200 with n in the 2000 and 2100 windows (a direct month-index oracle over the whole "
-          "range did not conclude: 13..38 paths in 4400 s)",
+          "EDATE/EOMONTH: around the fictitious 1900-02-29 and the calendar start; EDATE(n,k) = DATE(y,m+k,d) and "
+          "EOMONTH(n,k) = DATE(y,m+k+1,1)-1 were tried for |k| <= 1200 and |k| <= 14 in 1000-day windows and gave no verdict (as did a "
+          "month-index oracle over the whole range): month arithmetic away from 1900 is decided only through DATE itself",
           "DATE in a history: Februaries of 1900/1904/2000/2100/2300/2400/9900 x days 28..30, two calls",
           "YEARFRAC: symmetry for bases 2, 3 over the whole range; bases 0 and 4 with both dates in the 2000 / 2100 windows (thorough); "
           "basis 1 not decided (458 paths in 900 s, no verdict)",
@@ -451,8 +451,8 @@ def obligations(tier):
         for w in WINDOWS:
             add(f"month_end[{w}]", "ob_month_end", (w,), 1500, group="calendar")
         add("civil[1900-1931]", "ob_civil", (0, 256), 2400, group="calendar")
-        for w in ("1999-2001", "2099-2101"):
-            add(f"months_glue[K=1200,{w}]", "ob_months_glue", (1200, w), 1500, group="months")
+        # ob_months_glue (EDATE/EOMONTH = DATE of the shifted parts) is not registered: |k| <= 1200 and |k| <= 14 in a
+        # 1000-day window both ended without a verdict (29..36 paths in 1400..2200 s)
         add("date_carry_wide", "ob_date_carry_wide", (), 2400, group="date")
         for w in ("1999-2001", "2099-2101"):
             for basis in (0, 4):
